@@ -77,10 +77,10 @@ theorem contE_eq_Fwd (h : Hyp dt c σ) (hinj : Inj c σ) (hL : ∀ x ∈ states 
       rw [hK1 _ (good_perm0 hg1 ρ), hK1 _ hg1]
       exact ASMC.propC_sym t _ ρ _ hFsym
 
-/-- **conditional SMC given the order**: `SMC.csmc` followed by the final draw has the expectations of
-the abstract kernel -/
-theorem csmc_E (h : Hyp dt c σ) (hinj : Inj c σ) (hL : ∀ x ∈ states c σ, x ∈ L) (θ : ℚ) (m : ℕ)
-    {x : T} {path : ℕ → St L} (hp : PathOK c σ x path) (hne : σ ≠ []) (hh : T → ℚ) :
+/-- **conditional SMC given the order, at least two data points**: `SMC.csmc` followed by the final draw
+has the expectations of the abstract kernel -/
+theorem csmc_E_many (h : Hyp dt c σ) (hinj : Inj c σ) (hL : ∀ x ∈ states c σ, x ∈ L) (θ : ℚ) (m : ℕ)
+    {x : T} {path : ℕ → St L} (hp : PathOK c σ x path) (hne : σ ≠ []) (hlen1 : σ.length ≠ 1) (hh : T → ℚ) :
     Dist.E (Dist.bind (SMC.csmc (runOf dt c m θ) x σ) SMC.select) hh
       = ∑ y : St L, ASMC.kernel (spec dt c σ (uN m) L hL θ m) (uN m) σ.length (path σ.length) y * hh y.1 := by
   have hv := spec_valid h (uN_pos m) hL θ m
@@ -104,6 +104,7 @@ theorem csmc_E (h : Hyp dt c σ) (hinj : Inj c σ) (hL : ∀ x ∈ states c σ, 
     exact ((ASMC.C_lin σ.length (path σ.length)).smul_right (hh y.1) (fun S => ASMC.sel S y)).symm
   rw [hR, E_bind]
   unfold SMC.csmc
+  simp only [if_neg hlen1]
   rw [sweep_E, Dist.E_norm, init_E h hinj hL θ m hp hne]
   -- unfold the first abstract step: no resampling before the first data point
   obtain ⟨k, hk⟩ : ∃ k, σ.length = k + 1 := ⟨σ.length - 1, by omega⟩
@@ -128,5 +129,73 @@ theorem csmc_E (h : Hyp dt c σ) (hinj : Inj c σ) (hL : ∀ x ∈ states c σ, 
   · intro T hT
     rw [← hk]
     exact contE_eq_Fwd h hinj hL θ m hp G hG k 1 one_ne_zero (by omega) σ.length (by omega) T hT
+
+/-- **conditional SMC given the order, a single data point**: the swarm of the first (= last) step is
+resampled, if the rule fires, before the final draw -/
+theorem csmc_E_one (h : Hyp dt c σ) (hinj : Inj c σ) (hL : ∀ x ∈ states c σ, x ∈ L) (θ : ℚ) (m : ℕ)
+    {x : T} {path : ℕ → St L} (hp : PathOK c σ x path) (hlen1 : σ.length = 1) (hh : T → ℚ) :
+    Dist.E (Dist.bind (SMC.csmc (runOf dt c m θ) x σ) SMC.select) hh
+      = ∑ y : St L, ASMC.kernelR (spec dt c σ (uN m) L hL θ m) (uN m) σ.length (path σ.length) y * hh y.1 := by
+  have hne : σ ≠ [] := by intro h0; rw [h0] at hlen1; simp at hlen1
+  set sp := spec dt c σ (uN m) L hL θ m with hsp
+  set G : SMC.Swarm → ℚ := fun sw => Dist.E (SMC.select sw) hh with hGdef
+  have hGS : ∀ S : ASMC.Sys (St L) m, G (swOf S) = ∑ y : St L, ASMC.sel S y * hh y.1 := fun S => select_E S hh
+  have hsym := ASMC.sel_sym (m := m) (fun y : St L => hh y.1)
+  -- left-hand side
+  rw [E_bind]
+  unfold SMC.csmc
+  simp only [if_pos hlen1]
+  rw [Dist.E_norm, E_bind, Dist.E_norm, init_E h hinj hL θ m hp hne]
+  -- right-hand side
+  rw [hlen1]
+  unfold ASMC.kernelR
+  have hC : ∀ f : ASMC.Sys (St L) m → ℚ, ASMC.C sp (uN m) 1 (path 1) f
+      = ASMC.propC sp 0 (path 1) (ASMC.S0 sp) f := by
+    intro f
+    have hrs : sp.rs 0 (ASMC.wts (ASMC.S0 sp)) = false := by
+      show essRule θ m 0 (ASMC.wts (ASMC.S0 sp)) = false
+      unfold essRule; rfl
+    simp only [ASMC.C, ASMC.stepC, hrs, Bool.false_eq_true, if_false]
+  have hsum : ∑ y : St L, ASMC.C sp (uN m) 1 (path 1) (fun S => ASMC.selR sp (uN m) 1 S y) * hh y.1
+      = ASMC.C sp (uN m) 1 (path 1) (fun S => ∑ y : St L, ASMC.selR sp (uN m) 1 S y * hh y.1) := by
+    rw [(ASMC.C_lin 1 (path 1)).sum]
+    apply Finset.sum_congr rfl
+    intro y _
+    exact ((ASMC.C_lin 1 (path 1)).smul_right (hh y.1) (fun S => ASMC.selR sp (uN m) 1 S y)).symm
+  rw [hsum, hC]
+  congr 1
+  funext S
+  rw [resample_E (runOf dt c m θ) rfl S 1 one_ne_zero G]
+  · unfold ASMC.selR
+    show (if essRule θ m 1 (ASMC.wts S) = true then _ else _) = _
+    have hrs1 : sp.rs 1 (ASMC.wts S) = essRule θ m 1 (ASMC.wts S) := rfl
+    rw [hrs1]
+    split
+    · simp only [hGS]
+      have hlin := ASMC.resC_lin (u := uN m) S
+      show ASMC.resC (uN m) S (fun S' => ∑ y : St L, ASMC.sel S' y * hh y.1) = _
+      rw [hlin.sum]
+      apply Finset.sum_congr rfl
+      intro y _
+      exact hlin.smul_right (hh y.1) (fun S' => ASMC.sel S' y)
+    · exact hGS S
+  · intro a ρ
+    rw [hGS, hGS]
+    exact hsym ρ _
+
+/-- **conditional SMC given the order**: `SMC.csmc` followed by the final draw has the expectations of
+the abstract kernel with the code's schedule (`ASMC.kernelX`) -/
+theorem csmc_E (h : Hyp dt c σ) (hinj : Inj c σ) (hL : ∀ x ∈ states c σ, x ∈ L) (θ : ℚ) (m : ℕ)
+    {x : T} {path : ℕ → St L} (hp : PathOK c σ x path) (hne : σ ≠ []) (hh : T → ℚ) :
+    Dist.E (Dist.bind (SMC.csmc (runOf dt c m θ) x σ) SMC.select) hh
+      = ∑ y : St L, ASMC.kernelX (spec dt c σ (uN m) L hL θ m) (uN m) σ.length (path σ.length) y * hh y.1 := by
+  unfold ASMC.kernelX
+  by_cases hlen1 : σ.length = 1
+  · simp only [if_pos hlen1]
+    have := csmc_E_one h hinj hL θ m hp hlen1 hh
+    rw [hlen1] at this ⊢
+    exact this
+  · simp only [if_neg hlen1]
+    exact csmc_E_many h hinj hL θ m hp hne hlen1 hh
 
 end PhyModel.PG
